@@ -2,7 +2,7 @@
    the column names and collect() of the operand only -- whatever the partitioning and however
    Context.parallelize re-slices a list. *)
 From Coq Require Import ZArith NArith Bool String List Permutation Sorted Lia.
-From Coq Require Import PrimFloat.
+From Coq Require Import PrimFloat SpecFloat FloatOps.
 Require Import PV.Base.Num PV.Gen.SqlTables PV.Model.SqlExpr PV.Model.SqlRel.
 Require Import PV.Proofs.SqlExpr PV.Proofs.SqlSort.
 Import ListNotations.
@@ -116,23 +116,22 @@ Proof. unfold toDF. destruct (Nat.eqb _ _); reflexivity. Qed.
 
 (* ----- union *)
 Lemma union_view d o :
-  option_map view (union d o) =
+  option_map view (union split d o) =
   if Nat.eqb (length (cols d)) (length (cols o)) then Some (cols d, collect d ++ collect o) else None.
 Proof.
   unfold union. destruct (Nat.eqb _ _); [|reflexivity]. cbn. unfold view, collect. cbn.
-  rewrite concat_app. reflexivity.
+  rewrite split_ok. reflexivity.
 Qed.
 
 Lemma unionByName_view d o :
-  option_map view (unionByName d o) =
+  option_map view (unionByName split d o) =
   if nodup_names (cols d) && nodup_names (cols o) && Nat.eqb (length (cols d)) (length (cols o))
   then option_map (fun rs => (cols d, collect d ++ rs)) (map_opt (reorder_row (cols o) (cols d)) (collect o))
   else None.
 Proof.
-  unfold unionByName. destruct (_ && _ && _); [|reflexivity]. unfold collect at 2.
-  rewrite <- (homo_concat (map_opt (reorder_row (cols o) (cols d))) eq_refl (map_opt_app _)).
-  destruct (map_opt _ (parts o)); [|reflexivity]. cbn. unfold view, collect. cbn.
-  rewrite concat_app. reflexivity.
+  unfold unionByName. destruct (_ && _ && _); [|reflexivity].
+  destruct (map_opt _ (collect o)); [|reflexivity]. cbn. unfold view, collect. cbn.
+  rewrite split_ok. reflexivity.
 Qed.
 
 (* ----- distinct, dropDuplicates, limit *)
@@ -240,12 +239,12 @@ Proof.
     destruct (run_simple s1 other t2) as [x|], (run_simple s2 other t2') as [y|]; cbn in Ho; try discriminate Ho;
       [|reflexivity].
     assert (Ho' : view x = view y) by (unfold view in *; congruence). destruct (view_eq _ _ Ho') as [Hc2 Hr2].
-    rewrite !union_view, Hc, Hr, Hc2, Hr2. reflexivity.
+    rewrite (union_view s1 L1), (union_view s2 L2), Hc, Hr, Hc2, Hr2. reflexivity.
   - pose proof (run_simple_indep s1 s2 L1 L2 other t2 t2' Ht) as Ho.
     destruct (run_simple s1 other t2) as [x|], (run_simple s2 other t2') as [y|]; cbn in Ho; try discriminate Ho;
       [|reflexivity].
     assert (Ho' : view x = view y) by (unfold view in *; congruence). destruct (view_eq _ _ Ho') as [Hc2 Hr2].
-    rewrite !unionByName_view, Hc, Hr, Hc2, Hr2. reflexivity.
+    rewrite (unionByName_view s1 L1), (unionByName_view s2 L2), Hc, Hr, Hc2, Hr2. reflexivity.
 Qed.
 
 Theorem rel_partition_indep : forall s1 s2, split_law s1 -> split_law s2 ->
@@ -331,20 +330,20 @@ Theorem limit_prefix : forall split, split_law split -> forall n d,
   cols (limit split n d) = cols d /\ collect (limit split n d) = firstn n (collect d).
 Proof. intros split L n d. pose proof (limit_view split L n d) as H. unfold view in H. inversion H. auto. Qed.
 
-Theorem union_concat : forall d o,
+Theorem union_concat : forall split, split_law split -> forall d o,
   length (cols d) = length (cols o) ->
-  exists d', union d o = Some d' /\ cols d' = cols d /\ collect d' = collect d ++ collect o.
+  exists d', union split d o = Some d' /\ cols d' = cols d /\ collect d' = collect d ++ collect o.
 Proof.
-  intros d o Hl. pose proof (union_view d o) as Hv. rewrite Hl, Nat.eqb_refl in Hv.
-  destruct (union d o) as [d'|]; [|discriminate Hv]. exists d'. cbn in Hv. injection Hv as H1 H2. auto.
+  intros split L d o Hl. pose proof (union_view split L d o) as Hv. rewrite Hl, Nat.eqb_refl in Hv.
+  destruct (union split d o) as [d'|]; [|discriminate Hv]. exists d'. cbn in Hv. injection Hv as H1 H2. auto.
 Qed.
 
-Theorem unionByName_concat : forall d o d',
-  unionByName d o = Some d' ->
+Theorem unionByName_concat : forall split, split_law split -> forall d o d',
+  unionByName split d o = Some d' ->
   cols d' = cols d /\
   exists rs, map_opt (reorder_row (cols o) (cols d)) (collect o) = Some rs /\ collect d' = collect d ++ rs.
 Proof.
-  intros d o d' H. pose proof (unionByName_view d o) as Hv. rewrite H in Hv. cbn in Hv.
+  intros split L d o d' H. pose proof (unionByName_view split L d o) as Hv. rewrite H in Hv. cbn in Hv.
   destruct (_ && _ && _); [|discriminate Hv].
   destruct (map_opt _ (collect o)) as [rs|]; [|discriminate Hv]. cbn in Hv. injection Hv as H1 H2.
   split; auto. exists rs. auto.
@@ -800,4 +799,121 @@ Proof.
     assert (E : map_opt out_name (map ECol (cols d) ++ [EAlias e n]) = Some (cols d ++ [n])).
     { clear. induction (cols d) as [|m cs IH]; [reflexivity|]. cbn [map map_opt app out_name]. cbn [map app] in IH. rewrite IH. reflexivity. }
     rewrite E in Hv. destruct (map_opt _ (collect d)); [|discriminate Hv]. cbn in Hv. unfold view in Hv. congruence.
+Qed.
+
+(* ====================================================================== double keys *)
+(* The IEEE comparison on non-NaN floats is a strict weak order -- relative to the standard specification
+   of PrimFloat.ltb (the statement of FloatAxioms.ltb_spec), taken as an explicit premise so that no axiom
+   is used. *)
+Definition ltb_spec_premise : Prop :=
+  forall x y : float, PrimFloat.ltb x y = SFltb (Prim2SF x) (Prim2SF y).
+
+Definition sf_code (f : spec_float) : Z * (Z * Z) :=
+  match f with
+  | S754_zero _ => (0, (0, 0))
+  | S754_infinity s => (if s then -2 else 2, (0, 0))
+  | S754_nan => (3, (0, 0))
+  | S754_finite s m e => if s then (-1, (- e, - Z.pos m)) else (1, (e, Z.pos m))
+  end.
+
+Definition lt3 : Z * (Z * Z) -> Z * (Z * Z) -> bool :=
+  lex (fun p q => Z.ltb (fst p) (fst q))
+      (lex (fun p q => Z.ltb (fst (snd p)) (fst (snd q))) (fun p q => Z.ltb (snd (snd p)) (snd (snd q)))).
+
+Definition sf_not_nan (f : spec_float) : Prop := f <> S754_nan.
+
+Lemma cmp_cont_eq m1 m2 : Pos.compare_cont Eq m1 m2 = (Z.pos m1 ?= Z.pos m2).
+Proof. reflexivity. Qed.
+
+Lemma sfltb_code x y : sf_not_nan x -> sf_not_nan y -> SFltb x y = lt3 (sf_code x) (sf_code y).
+Proof.
+  unfold sf_not_nan, SFltb, lt3, lex. intros Hx Hy.
+  destruct x as [s1|s1| |s1 m1 e1]; try congruence; destruct y as [s2|s2| |s2 m2 e2]; try congruence;
+    cbn [SFcompare sf_code fst snd];
+    try (destruct s1; try destruct s2; reflexivity); try (destruct s2; reflexivity).
+  rewrite cmp_cont_eq.
+  destruct s1, s2; cbn [fst snd]; try reflexivity.
+  - destruct (Z.compare_spec e1 e2) as [E|E|E]; destruct (Z.compare_spec (Z.pos m1) (Z.pos m2)) as [M|M|M]; cbn;
+      repeat match goal with |- context [?a <? ?b] => destruct (Z.ltb_spec a b) end; cbn; try reflexivity; lia.
+  - destruct (Z.compare_spec e1 e2) as [E|E|E]; destruct (Z.compare_spec (Z.pos m1) (Z.pos m2)) as [M|M|M]; cbn;
+      repeat match goal with |- context [?a <? ?b] => destruct (Z.ltb_spec a b) end; cbn; try reflexivity; lia.
+Qed.
+
+Lemma lt3_swo : swo (fun _ => True) lt3.
+Proof.
+  apply lex_swo; [apply (swo_preimage _ (fun _ => True)), zlt_swo|].
+  apply lex_swo; apply (swo_preimage _ (fun _ => True)), zlt_swo.
+Qed.
+
+Definition val_not_nan (v : sval) : Prop :=
+  match v with SDbl f => Prim2SF f <> S754_nan | _ => True end.
+Definition dbl_like (v : sval) : Prop :=
+  match v with SNull => True | SDbl f => Prim2SF f <> S754_nan | _ => False end.
+
+Definition dbl_code (k : bool * sval) : Z * (Z * Z) :=
+  match snd k with SDbl f => sf_code (Prim2SF f) | _ => (0, (0, 0)) end.
+Definition key_lt_dbl : bool * sval -> bool * sval -> bool :=
+  lex (fun p q => Z.ltb (flag_code p) (flag_code q)) (fun p q => lt3 (dbl_code p) (dbl_code q)).
+
+Lemma key_lt_dbl_swo : swo (fun _ => True) key_lt_dbl.
+Proof.
+  apply lex_swo; [apply (swo_preimage _ (fun _ => True)), zlt_swo | apply (swo_preimage _ (fun _ => True)), lt3_swo].
+Qed.
+
+Lemma key_lt_is_dbl (P : ltb_spec_premise) ns v1 v2 :
+  dbl_like v1 -> dbl_like v2 -> key_lt (sort_key ns v1) (sort_key ns v2) = key_lt_dbl (sort_key ns v1) (sort_key ns v2).
+Proof.
+  unfold key_lt_dbl, lex, sort_key, flag_code, dbl_code. intros H1 H2.
+  destruct v1 as [| |a| |]; try (exact (False_ind _ H1)); destruct v2 as [| |b| |]; try (exact (False_ind _ H2));
+    destruct ns; cbn; try reflexivity; rewrite P; apply sfltb_code; assumption.
+Qed.
+
+Lemma row_lt_swo_dbl (P : ltb_spec_premise) cs e d : swo (fun r => dbl_like (keyv cs e r)) (row_lt cs (e, d)).
+Proof.
+  unfold row_lt, row_key, key_lt_dir. cbn [fst snd]. destruct (dir_ascending d).
+  - eapply swo_ext; [intros x y Hx Hy; apply (key_lt_is_dbl P); assumption|].
+    eapply swo_weaken; [|apply (swo_preimage (fun r => sort_key (dir_nulls_smaller d) (keyv cs e r)) (fun _ => True)),
+                          key_lt_dbl_swo]. intros ? ?; exact I.
+  - eapply swo_ext; [intros x y Hx Hy; apply (key_lt_is_dbl P); assumption|].
+    apply swo_flip.
+    eapply swo_weaken; [|apply (swo_preimage (fun r => sort_key (dir_nulls_smaller d) (keyv cs e r)) (fun _ => True)),
+                          key_lt_dbl_swo]. intros ? ?; exact I.
+Qed.
+
+(* a well-typed key of ANY type over typed rows whose key value is not NaN *)
+Lemma typed_key_swo_all (P : ltb_spec_premise) G e d t :
+  wt false G e t = true ->
+  swo (fun r => row_ok G r = true /\ val_not_nan (keyv (map fst G) e r)) (row_lt (map fst G) (e, d)).
+Proof.
+  intros Hw. destruct (discrete t) eqn:Hd.
+  - eapply swo_weaken; [|eapply typed_key_swo; eauto]. intros r [Hr _]. exact Hr.
+  - destruct t; try discriminate Hd.
+    eapply swo_weaken; [|apply (row_lt_swo_dbl P)]. intros r [Hr Hn]. cbn beta. unfold keyv in *.
+    destruct (eval_sql_typed G r e TDbl Hr Hw) as [E T]. rewrite E in *.
+    destruct (sql_eval (map fst G) r e); try discriminate T; [exact I | exact Hn].
+Qed.
+
+Definition keys_not_nan (cs : list name) (ks : list (expr * sdir)) (r : row) : Prop :=
+  Forall (fun k => val_not_nan (keyv cs (fst k) r)) ks.
+
+Theorem sort_spec_typed_all : ltb_spec_premise -> forall split, split_law split -> forall G ks d d',
+  cols d = map fst G ->
+  Forall (fun r => row_ok G r = true /\ keys_not_nan (cols d) ks r) (collect d) ->
+  Forall (fun k => exists t, wt false G (fst k) t = true) ks ->
+  sort_df split ks d = Some d' ->
+  let lt := lexn (map (row_lt (cols d)) ks) in
+  cols d' = cols d /\
+  collect d' = isort lt (collect d) /\
+  Permutation (collect d') (collect d) /\
+  StronglySorted (le_of lt) (collect d') /\
+  (forall z, row_ok G z = true -> keys_not_nan (cols d) ks z ->
+             filter (eqv_of lt z) (collect d') = filter (eqv_of lt z) (collect d)).
+Proof.
+  intros P split L G ks d d' Hc Hr Hk H lt.
+  destruct (sort_spec split L (fun r => row_ok G r = true /\ keys_not_nan (cols d) ks r) ks d d') as [A [B [C [D E]]]]; auto.
+  - rewrite Forall_forall in Hk |- *. intros [e dir] Hin. destruct (Hk _ Hin) as [t Hw]. cbn [fst] in Hw.
+    eapply swo_weaken; [|rewrite Hc; apply (typed_key_swo_all P G e dir t Hw)].
+    intros r [Hr1 Hr2]. split; [exact Hr1|]. unfold keys_not_nan in Hr2. rewrite Forall_forall in Hr2.
+    rewrite <- Hc. apply (Hr2 (e, dir) Hin).
+  - repeat split; auto.
 Qed.
